@@ -6,8 +6,6 @@ From Eupsv Require Import Proofs.DbLib Proofs.Db Proofs.DbSim Proofs.DbInv Proof
 From Eupsv Require Import Proofs.CacheLib Proofs.CacheWt Proofs.CacheRebuild.
 From Coq Require Import Lia.
 
-Definition clock_strict (tick : nat -> nat) : Prop := forall c, c < tick c.
-
 Definition is_touch (e : fseffect) : bool :=
   match e with Mkdir _ _ | Rmdir _ _ => false | _ => true end.
 
